@@ -562,7 +562,8 @@ Definition observe (w : world) (e : event) : list Z :=
   match e with
   | EvCmd c => enc_res (snd (propose w c))
   | EvCatchup j _ | EvInstall j | EvRestart j => enc_rep (nth j (w_reps w') rep0)
-  | EvLeader _ | EvFailover => nz (w_leader w') :: enc_rep (leader_rep w')
+  | EvLeader _ => nz (w_leader w') :: enc_rep (leader_rep w')
+  | EvFailover => enc_mstate (leader_st w')
   | EvMRegCur => enc_res (snd (m_register_curator w))
   | EvMRegTs => enc_res (snd (m_register_ts w))
   | EvMHeartbeat c => match snd (m_heartbeat w c) with
